@@ -177,10 +177,10 @@ func ruleC17(w *World, r *Report) {
 			if len(ret.Results) != 2 {
 				continue
 			}
-			if isNilConst(ret.Results[1]) {
+			if isNilConst(res(ret, 1)) {
 				continue
 			}
-			v := ret.Results[0]
+			v := res(ret, 0)
 			zero := false
 			if c, ok := v.(*ssa.Const); ok && (c.Value == nil || c.IsNil()) {
 				zero = true
@@ -203,14 +203,14 @@ func ruleC17(w *World, r *Report) {
 			if ret == nil {
 				return
 			}
-			isErr := !isNilConst(ret.Results[1])
+			isErr := !isNilConst(res(ret, 1))
 			desc := "asTrivialTernaryMatch[" + cls + "]"
 			switch {
 			case strings.Contains(cls, "wildcard=T"):
-				s := ruleLiteral(p, ret.Results[0])
+				s := ruleLiteral(p, res(ret, 0))
 				r.check(!isErr && s == "{0,0}", "R17.2", w.FuncName(trivial), desc+" → {0,0}", w.Pos(ret.Pos()), s, "wildcard converts to "+s)
 			case strings.Contains(cls, "exact=T"):
-				s := ruleLiteral(p, ret.Results[0])
+				s := ruleLiteral(p, res(ret, 0))
 				r.check(!isErr && s == "exact()", "R17.2", w.FuncName(trivial), desc+" → {low,0xFFFF}", w.Pos(ret.Pos()), s, "exact range converts to "+s)
 			default:
 				r.check(isErr, "R17.2", w.FuncName(trivial), desc+" → error", w.Pos(ret.Pos()), "refused", "a true range is trivially converted instead of refused")
@@ -486,11 +486,11 @@ func ruleC17Cartesian(w *World, r *Report, cart, complexF, trivial, isR *ssa.Fun
 				trivialOn = append(trivialOn, whoOf(c))
 			}
 		})
-		errRet := !isNilConst(ret.Results[1])
+		errRet := !isNilConst(res(ret, 1))
 		// an error return caused by a failing callee is fine in every class; classify only "own" outcomes
 		calleeErr := false
 		if errRet {
-			if ex, ok := ret.Results[1].(*ssa.Extract); ok {
+			if ex, ok := res(ret, 1).(*ssa.Extract); ok {
 				if c, ok := ex.Tuple.(*ssa.Call); ok && (staticCallee(c) == complexF || staticCallee(c) == trivial) {
 					calleeErr = true
 				}
@@ -769,7 +769,7 @@ func ruleC17Complex(w *World, r *Report, f, isW, isE, isR, width, exactUn *ssa.F
 		if !isRet {
 			return outcome{kind: "unknown"}, end
 		}
-		if !isNilConst(ret.Results[1]) {
+		if !isNilConst(res(ret, 1)) {
 			return outcome{kind: "refuse"}, end
 		}
 		// a successful return before the loop: the appended literal
